@@ -33,6 +33,34 @@ def close(a, b, tol=1e-12):
     return a.shape == b.shape and bool(np.all(np.abs(a - b) <= tol * (1 + np.abs(b))))
 
 
+def caller_reuses_stiffness_arrays(ctx):
+    """the caller scales the arrays it built a law from (for "the next material"): whatever the law then describes, its forces are still the gradient of
+    its energy and its tangents the derivatives of its forces (central differences; the energies are at most quartic in the strains)"""
+    from cardillo.rods import _material_models as mm
+
+    n = 0
+    rs = np.random.default_rng(5)
+    for cls in (mm.Simo1986, mm.Harsch2021):
+        Ea = np.array([5.0, 1.5, 2.5]); Fa = np.array([0.7, 2.0, 1.1])
+        law = cls(Ea, Fa)
+        Ea *= 3.0; Fa *= 0.5
+        for _ in range(3):
+            G = np.array([1.0, 0.0, 0.0]) + 0.3 * rs.standard_normal(3); G0 = np.array([0.8, 0.3, -0.2]); K = 0.4 * rs.standard_normal(3); K0 = np.array([0.1, -0.2, 0.05])
+            h = 1e-6
+            W = lambda g, k: law.potential(g, G0.copy(), k, K0.copy())
+            n_num = np.array([(W(G + h * e, K) - W(G - h * e, K)) / (2 * h) for e in np.eye(3)])
+            m_num = np.array([(W(G, K + h * e) - W(G, K - h * e)) / (2 * h) for e in np.eye(3)])
+            nG_num = np.array([(np.asarray(law.B_n(G + h * e, G0.copy(), K.copy(), K0.copy())) - np.asarray(law.B_n(G - h * e, G0.copy(), K.copy(), K0.copy()))) / (2 * h) for e in np.eye(3)]).T
+            where = {"law": cls.__name__, "history": "the caller scaled its stiffness arrays in place after constructing the law", "G": G.tolist(), "K": K.tolist()}
+            n += 1
+            for name, got, ref in (("B_n", law.B_n(G.copy(), G0.copy(), K.copy(), K0.copy()), n_num), ("B_m", law.B_m(G.copy(), G0.copy(), K.copy(), K0.copy()), m_num),
+                                   ("B_n_B_Gamma", law.B_n_B_Gamma(G.copy(), G0.copy(), K.copy(), K0.copy()), nG_num)):
+                if not np.allclose(np.asarray(got, dtype=float), ref, rtol=1e-6, atol=1e-6):
+                    ctx.violation(f"{cls.__name__}:{name}:caller-reuses-stiffness-arrays", f"{cls.__name__}.{name} is not the derivative it claims to be after the caller scaled the stiffness "
+                                  f"arrays in place: {np.asarray(got).tolist()} vs central differences {np.round(ref, 8).tolist()}", where)
+    return n
+
+
 def run(ctx):
     from cardillo.rods import _material_models as mm
 
@@ -46,7 +74,10 @@ def run(ctx):
         c = st["case"]
         key = (c["law"], tuple(c["E"]), tuple(c["F"]))
         if key not in laws:
-            laws[key] = getattr(mm, c["law"])(np.array(c["E"], dtype=float), np.array(c["F"], dtype=float))
+            # the stiffness vectors as the caller holds them: typed as integers for every second object (the lattice stiffnesses are integers)
+            ints = len(laws) % 2 == 1 and all(float(x).is_integer() for x in list(c["E"]) + list(c["F"]))
+            Ea = np.array(c["E"], dtype=int if ints else float); Fa = np.array(c["F"], dtype=int if ints else float)
+            laws[key] = getattr(mm, c["law"])(Ea, Fa)
     n = 0
     samples = []
     dual_checked = {}
@@ -111,13 +142,14 @@ def run(ctx):
             if not close(got2[name], exp[name]):
                 ctx.violation(f"{c['law']}:{name}:reused-argument-arrays", f"{c['law']}.{name} at {w}, called with arrays that held other values in the previous call: "
                                                                          f"{np.asarray(got2[name]).tolist()}, exact {np.asarray(exp[name]).tolist()}", w)
+    caller_reuses_stiffness_arrays(ctx)
     ctx.log(f"[C12] {n} lattice cases replayed on {len(laws)} long-lived law objects; duality checked {dual_checked}")
     ctx.coverage = {"states": r.distinct, "transitions": max(r.generated, 1), "traces_validated_against_impl": n, "samples": samples, "exhaustive": True,
                     "law_objects": len(laws), "duality_checked": dual_checked,
                     "rule": "2 laws x 2 stiffness vectors x 7 strains with integer length x 4 reference strains (lengths 1, 2, 3, 5) x 2 curvatures x 2 reference curvatures"}
     ctx.assumptions = ["strains are restricted to vectors with integer Euclidean length so that Harsch2021's energy, force and tangent are rational",
                        "float values compared with the spec's rationals at 1e-12 relative",
-                       "every case is evaluated twice: with fresh argument arrays, and in a second pass with four long-lived arrays that are overwritten in place from case to case"]
+                       "stiffness vectors are handed over as integer-typed arrays for every second law object; after the caller has scaled its stiffness arrays in place a law must still be hyperelastic (central differences)", "every case is evaluated twice: with fresh argument arrays, and in a second pass with four long-lived arrays that are overwritten in place from case to case"]
 
 
 def replay(ctx, path):
